@@ -148,6 +148,10 @@ package dkg
 //@   ensures [C08:ReceivedAcceptance-keeps-state] err == nil ==> res == d && d.State == old(d.State) && d.Epoch == old(d.Epoch)
 //@   ensures [C08:ReceivedAcceptance-error-keeps-record] err != nil ==> res == nil && sameRecord(d)
 //@   ensures [C09:acceptor-signs-own-acceptance] err == nil ==> metadata.Address == them.Address
+// only a remaining member accepts: the acceptor is looked up in the Remaining list, and the only other lookup is the
+// duplicate check in the Acceptors list (a joiner or leaver named as acceptor is refused)
+//@   call Contains#0: assert [C09:the-acceptor-is-looked-up-among-the-remaining-members] arg0 == d.Remaining && arg1 == them
+//@   call Contains#1: assert [C09:the-only-other-lookup-is-the-duplicate-check] arg0 == d.Acceptors && arg1 == them
 
 //@ func (*DBState).ReceivedRejection(d, them, metadata) (res, err)
 //@   props C08 C09
@@ -346,12 +350,16 @@ package dkg
 //@   modifies nothing
 //@   ensures err == nil ==> out != nil
 
-//@ func (*Process).executeAndFinishDKG(d, ctx, beaconID, config) (err)
+// (the result is named rerr: the body has locals called err, and a Go name in a clause means the variable's current value)
+//@ func (*Process).executeAndFinishDKG(d, ctx, beaconID, config) (rerr)
 //@   props C08 C13
 //@   call SaveFinished#0: assert [C08:finished-record-written-only-for-a-complete-epoch] arg2 != nil && arg2.State == Complete && arg2.FinalGroup != nil && arg2.KeyShare != nil
 //@   call SaveFinished#0: assert [C08:completion-moves-from-executing] arg2 == curOf(d.store, beaconID) && nSaves(d.store) == old(nSaves(d.store))
 //@   call SaveCurrent#0: assert [C08:failed-attempt-stays-in-the-current-bucket] arg2 != nil && arg2.State == Failed && finOf(d.store, beaconID) == old(finOf(d.store, beaconID))
 //@   ensures [C08:failed-attempt-keeps-last-completed-epoch] nSaves(d.store) == old(nSaves(d.store)) ==> finOf(d.store, beaconID) == old(finOf(d.store, beaconID))
+// C13: the result is handed to the beacon process (which writes group file and share) only with the finished record in
+// the database: a run that reports success has stored exactly the record it published
+//@   ensures [C13:a-dkg-is-reported-complete-only-with-its-finished-record-stored] rerr == nil ==> finalState != nil && finOf(d.store, beaconID) == finalState
 
 // ---- C08 / C09: a reshare proposal must name exactly the members of the current epoch, with their recorded keys ------
 //@ pred keyKept(q, p) := q != nil && p != nil && q.Address == p.Address ==> bytesEq(q.Key, p.Key)
